@@ -70,7 +70,9 @@ def cases(tier):
     for mesh in meshes:
         nodes, faces = builders.mesh_library(mesh)
         n = len(faces)
-        for with_edges in (False, True):
+        for with_edges in (False, True, 'face_face', 'all'):
+            if with_edges in ('face_face', 'all') and n > 8 and tier == 'quick' and mesh != 'M7':
+                continue
             if n <= 8 or tier == 'thorough':
                 total = 2 ** n
                 for start in range(0, total, CHUNK):
@@ -301,13 +303,17 @@ def run_part_m(case, rec):
     from emsarray.conventions.ugrid import buffer_faces, mask_from_face_indexes
     from .c10 import masked_rows
     spec = {'family': 'ugrid', 'mesh': case['mesh']}
-    if case['edges']:
+    if case['edges'] is True:
         spec.update({'supplied': ['edge_node', 'face_edge'], 'start_index': 1, 'fill': 'fillattr'})
+    elif case['edges'] == 'face_face':
+        spec.update({'supplied': ['face_face'], 'fill': 'fillattr'})
+    elif case['edges'] == 'all':
+        spec.update({'supplied': list(builders.OPTIONAL_TABLES), 'start_index': 1})
     ds, truth = builders.build(spec)
     topology = ds.ems.topology
     fp = "C07/mesh-primitive"
     nface = len(truth.faces)
-    edge_rows = masked_rows(topology.face_edge_array) if case['edges'] else None
+    edge_rows = masked_rows(topology.face_edge_array) if case['edges'] in (True, 'all') else None
     if 'max_subset' in case:
         subsets = [set(c) for r in range(case['max_subset'] + 1) for c in itertools.combinations(range(nface), r)]
     else:
